@@ -1671,14 +1671,19 @@ func (ctx *RenderContext) contains(container, item interface{}) (bool, error) {
 		if len(c) > 50 {
 			// Create a temporary map for O(1) lookups
 			// Only worth doing for sufficiently large slices
+			// (only scalar values can be map keys: lists and maps inside the slice are not hashable)
 			tempMap := make(map[interface{}]struct{}, len(c))
 			for _, v := range c {
-				tempMap[v] = struct{}{}
+				if isHashableScalar(v) {
+					tempMap[v] = struct{}{}
+				}
 			}
 
 			// For numeric items, try direct lookup first
-			if _, ok := tempMap[item]; ok {
-				return true, nil
+			if isHashableScalar(item) {
+				if _, ok := tempMap[item]; ok {
+					return true, nil
+				}
 			}
 
 			// For string-comparable items, try string version
@@ -1687,8 +1692,8 @@ func (ctx *RenderContext) contains(container, item interface{}) (bool, error) {
 			}
 
 			// Fall back to deep equality comparison
-			for k := range tempMap {
-				if ctx.equals(k, item) {
+			for _, v := range c {
+				if ctx.equals(v, item) {
 					return true, nil
 				}
 			}
@@ -1720,12 +1725,16 @@ func (ctx *RenderContext) contains(container, item interface{}) (bool, error) {
 			// Same map-based optimization as above
 			tempMap := make(map[interface{}]struct{}, rv.Len())
 			for i := 0; i < rv.Len(); i++ {
-				tempMap[rv.Index(i).Interface()] = struct{}{}
+				if v := rv.Index(i).Interface(); isHashableScalar(v) {
+					tempMap[v] = struct{}{}
+				}
 			}
 
 			// Try direct lookup
-			if _, ok := tempMap[item]; ok {
-				return true, nil
+			if isHashableScalar(item) {
+				if _, ok := tempMap[item]; ok {
+					return true, nil
+				}
 			}
 
 			// Try string-based lookup
@@ -1734,8 +1743,8 @@ func (ctx *RenderContext) contains(container, item interface{}) (bool, error) {
 			}
 
 			// Fall back to equality comparison
-			for k := range tempMap {
-				if ctx.equals(k, item) {
+			for i := 0; i < rv.Len(); i++ {
+				if ctx.equals(rv.Index(i).Interface(), item) {
 					return true, nil
 				}
 			}
@@ -1758,6 +1767,15 @@ func (ctx *RenderContext) contains(container, item interface{}) (bool, error) {
 	}
 
 	return false, nil
+}
+
+// isHashableScalar reports whether a value of a basic kind can safely be used as a map key
+func isHashableScalar(v interface{}) bool {
+	switch v.(type) {
+	case string, bool, int, int8, int16, int32, int64, uint, uint8, uint16, uint32, uint64, float32, float64:
+		return true
+	}
+	return false
 }
 
 // equals checks if two values are equal
